@@ -29,10 +29,27 @@ def buffers_of(ci: ClassInfo) -> Dict[str, ast.Call]:
     init = ci.methods.get("__init__")
     if init is None:
         return out
+    from ..astutil import ancestors, set_parents
+
+    set_parents(init.node)
     for c in ast.walk(init.node):
         if isinstance(c, ast.Call) and attr_chain(c.func) == "self.register_buffer" and c.args and isinstance(c.args[0], ast.Constant):
             out[c.args[0].value] = c
+        elif isinstance(c, ast.Call) and attr_chain(c.func) == "self.register_buffer" and c.args and isinstance(c.args[0], ast.Name):
+            # the name comes from a loop over a literal tuple / list of strings: one registration per entry
+            lp = next((a for a in ancestors(c) if isinstance(a, ast.For) and isinstance(a.target, ast.Name) and a.target.id == c.args[0].id), None)
+            if lp is not None and isinstance(lp.iter, (ast.Tuple, ast.List)) and lp.iter.elts and all(isinstance(e, ast.Constant) and isinstance(e.value, str) for e in lp.iter.elts):
+                for e in lp.iter.elts:
+                    out[e.value] = c
+            else:
+                UNRESOLVED_BUFFERS.add(ci.name)
+        elif isinstance(c, ast.Call) and attr_chain(c.func) == "self.register_buffer":
+            UNRESOLVED_BUFFERS.add(ci.name)
     return out
+
+
+#: classes with a register_buffer call whose name the analysis could not resolve (the accumulator set is then unknown)
+UNRESOLVED_BUFFERS: set = set()
 
 
 def cfg(atoms):
@@ -54,6 +71,9 @@ def analyse_metric(repo: Repo, rep: Report, file: str, cname: str, fwd_atoms: Di
     ci = repo.cls(file, cname)
     n = 0
     bufs = buffers_of(ci)
+    if cname in UNRESOLVED_BUFFERS:
+        rep.undecided("ACC", f"{file}::{cname}.__init__", f"{cname}: registered buffers", "a register_buffer call names its buffer through an expression the analysis cannot resolve: the set of accumulators is not known")
+        return 1
     rep.floor(f"{cname} registered accumulators", len(bufs), 2)
     for b, call in bufs.items():
         init_txt = unparse(call.args[1]) if len(call.args) > 1 else ""
